@@ -18,7 +18,14 @@ PFX = {2: 'Line', 3: 'Quad', 4: 'Cubic'}
 
 
 def gen_seg(rng):
-    fam = rng.choice(['int', 'float', 'grid', 'collinear', 'arch', 'elevated', 'sliver', 'double', 'quad-linear'])
+    fam = rng.choice(['int', 'float', 'grid', 'collinear', 'arch', 'elevated', 'sliver', 'double', 'quad-linear', 'origin'])
+    if fam == 'origin':
+        # the running box gets a corner exactly at (0,0): the start point is the origin and the curve goes into one quadrant
+        sx, sy = rng.choice([-1, 1]), rng.choice([-1, 1])
+        k = rng.choice([2, 3, 4])
+        ps = [P(0.0, 0.0)] + [P(sx * rng.uniform(1, 300), sy * rng.uniform(1, 300)) for _ in range(k - 1)]
+        if rng.random() < 0.5: ps.reverse()
+        return fam, gen.KINDS[k](*ps)
     r = lambda: P(rng.uniform(-300, 300), rng.uniform(-300, 300))
     if fam in ('int', 'float', 'grid', 'collinear'): return fam, gen.segment(rng, fam=fam)[0]
     if fam == 'arch':
@@ -133,6 +140,7 @@ def search(ctx):
         if f: fails.append({'class': 'C02-segment', 'what': f[0], 'input': {'segment': gen.seg_json(s)}, 'observed': f, 'expected': 'box encloses the curve (0.06% slack only for end-sliver extrema) and is tight'})
     for _ in range(ctx.n(60, 1500)):
         segs = [gen_seg(rng)[1] for _ in range(rng.randint(1, 8))]
+        if rng.random() < 0.3: segs.insert(0, gen_seg(rng)[1].__class__ and Line(P(0.0, 0.0), P(rng.uniform(5, 200), rng.uniform(5, 200))))
         f = check_path(segs)
         dist['path'] = dist.get('path', 0) + 1
         if f: fails.append({'class': 'C02-path', 'what': f[0], 'input': {'path': [gen.seg_json(s) for s in segs]}, 'observed': f, 'expected': 'join of the segment boxes'})
